@@ -475,9 +475,12 @@ class FactFlow:
                 st = st | frozenset(g)
         return st
 
-    def _edge(self, st, blk, label, cond):
+    def edge_facts(self, blk, label):
+        """Facts established by leaving blk over its 'true'/'false' edge (a bool local stands for the condition it was
+        initialised with)."""
+        cond = blk.cond
         if cond is None or label not in ("true", "false"):
-            return st
+            return set()
         new = implied_facts(cond, label == "true")
         binds = self._bind_out.get(blk.id) or ()
         if binds:
@@ -488,6 +491,12 @@ class FactFlow:
                         if v == a and (v, txt) in self._bind_trees:
                             extra |= implied_facts(self._bind_trees[(v, txt)], t)
             new = set(new) | extra
+        return set(new)
+
+    def _edge(self, st, blk, label, cond):
+        if cond is None or label not in ("true", "false"):
+            return st
+        new = self.edge_facts(blk, label)
         atoms = {a for a, _ in new}
         # an assignment inside the condition is already accounted for by _transfer
         return frozenset(f for f in st if f[0] not in atoms) | frozenset(new)
@@ -502,6 +511,26 @@ class FactFlow:
 
     def facts_before(self, pos):
         return self.before.get(pos)
+
+
+def unchecked_reaches_exit(fn, discharges, flow=None):
+    """May-analysis: the state 'unchecked' enters at the function's entry and is removed on every CFG edge whose
+    facts (FactFlow.edge_facts: the branch condition, bool locals resolved) satisfy discharges(atom, truth).  Blocks
+    ending in a noreturn call are no exits.  Returns True if 'unchecked' can reach the normal exit - i.e. some path
+    returns without having passed a discharging edge."""
+    flow = flow or FactFlow(fn)
+
+    def edge(st, blk, lab, cond):
+        if blk.term.get("noreturn"):
+            return None
+        if st and any(discharges(a, t) for a, t in flow.edge_facts(blk, lab)):
+            return frozenset()
+        return st
+    _, bin_, _ = forward(fn, frozenset(["unchecked"]), lambda st, ev, pos: st, edge=edge)
+    at_exit = bin_.get(fn.exit)
+    if at_exit is None:
+        raise AnalysisBroken("%s has no reachable normal exit" % fn.qname)
+    return "unchecked" in at_exit
 
 
 # ----------------------------------------------------------------------------------------------
